@@ -217,3 +217,25 @@ def valid_source(ctx, kind, ylo, yhi, ntrans=1, shape=None, p="x", key="Verif/A"
     return x, tz, Ts, offs, w - off, us
 
 
+
+
+class cut:
+    """Replace a function of the re-hosted library by a stub for the duration of a path (symbolic
+    mode only): a deliberate, recorded cut of a computation the property does not depend on."""
+
+    def __init__(self, ctx, modname, attr, stub):
+        self.ctx, self.modname, self.attr, self.stub = ctx, modname, attr, stub
+
+    def __enter__(self):
+        if self.ctx.mode != "sym":
+            return self
+        import sys
+        self.mod = sys.modules[self.modname]
+        self.orig = getattr(self.mod, self.attr)
+        setattr(self.mod, self.attr, self.stub)
+        return self
+
+    def __exit__(self, *a):
+        if self.ctx.mode == "sym":
+            setattr(self.mod, self.attr, self.orig)
+        return False
